@@ -46,11 +46,12 @@ const (
 	opCrashAll
 	opRefused
 	opRawEntry
+	opRebuild
 	nOps
 )
 
 var opNames = [...]string{"end", "append", "joinlive", "send", "deliver", "publish", "crash", "restart", "partition", "heal",
-	"clockjump", "special", "setid", "algebra", "stall", "iter", "bounded", "byz", "denied", "reader", "tamper", "policy", "crashall", "refused", "rawentry"}
+	"clockjump", "special", "setid", "algebra", "stall", "iter", "bounded", "byz", "denied", "reader", "tamper", "policy", "crashall", "refused", "rawentry", "rebuild"}
 
 type Profile struct {
 	Prop    string
@@ -84,14 +85,17 @@ func baseWeights() [nOps]int {
 	w[opStall] = 2
 	w[opRefused] = 3
 	w[opByz] = 2
+	w[opRebuild] = 3
 	return w
 }
 
 type durablePtr struct {
-	kind int // 0 manifest, 1 entry hash
-	c    cid.Cid
-	set  map[string]bool
-	ver  int
+	kind  int // 0 manifest, 1 entry hash
+	c     cid.Cid
+	set   map[string]bool
+	ver   int
+	json  *iface.JSONLog       // what the application may have kept besides the manifest cid
+	heads []iface.IPFSLogEntry // (head list / head entries): alternative ways to restart
 }
 
 type Node struct {
@@ -640,7 +644,7 @@ func (w *World) doPublish() {
 	if err != nil {
 		w.R.Violate(w.P.Prop+":publish-error", "ToMultihash on a non-empty log failed: %v", err)
 	}
-	n.Durable = &durablePtr{kind: 0, c: c, set: copySet(n.Set)}
+	n.Durable = &durablePtr{kind: 0, c: c, set: copySet(n.Set), json: n.Log.ToJSONLog(), heads: n.Log.Heads().Slice()}
 	w.checkManifest(n, c)
 	w.recordPointer(n, 0, c)
 	w.R.Logf("publish n%d manifest=%s |set|=%d", n.Idx, c.String(), len(n.Set))
@@ -672,9 +676,17 @@ func (w *World) restart(n *Node) {
 	var l *ipfslog.IPFSLog
 	var err error
 	conc := w.R.Choose("load-conc", 6)
+	how := w.R.Choose("restart-loader", 3)
 	w.driven(func(ctx context.Context) {
 		if n.Durable.kind == 0 {
-			l, err = ipfslog.NewFromMultihash(ctx, w.St, n.W.ID, n.Durable.c, w.nodeOpts(n), &ipfslog.FetchOptions{Concurrency: conc})
+			switch {
+			case how == 1 && n.Durable.json != nil && w.Codec != "pb":
+				l, err = ipfslog.NewFromJSON(ctx, w.St, n.W.ID, n.Durable.json, w.nodeOpts(n), &entry.FetchOptions{Concurrency: conc})
+			case how == 2 && len(n.Durable.heads) > 0 && w.Codec != "pb":
+				l, err = ipfslog.NewFromEntry(ctx, w.St, n.W.ID, append([]iface.IPFSLogEntry(nil), n.Durable.heads...), w.nodeOpts(n), &entry.FetchOptions{Concurrency: conc})
+			default:
+				l, err = ipfslog.NewFromMultihash(ctx, w.St, n.W.ID, n.Durable.c, w.nodeOpts(n), &ipfslog.FetchOptions{Concurrency: conc})
+			}
 		} else {
 			l, err = ipfslog.NewFromEntryHash(ctx, w.St, n.W.ID, n.Durable.c, w.nodeOpts(n), &ipfslog.FetchOptions{Concurrency: conc})
 		}
@@ -1278,6 +1290,8 @@ func (w *World) dispatch(op int) {
 		w.doRefused()
 	case opRawEntry:
 		w.doRawEntry()
+	case opRebuild:
+		w.doRebuild()
 	default:
 		w.dispatchExt(op)
 	}
